@@ -105,6 +105,13 @@ CHECKS = {
         technique=MC_TECH + " (all values over a hostile-atom alphabet x all writer options, differential against independent parsers)",
         design="DESIGN.md §4 C14",
     ),
+    "C15": dict(
+        category="exploration",
+        text="A program family that reads its configuration, run through the real jrsonnet executable and through the library API for every configuration of: external variables x top-level arguments in every subset of {string, code, string-file, code-file}, defaulted top-level parameters without arguments, -J lists with shadowing, input file / -e / stdin, output json / -S / -y / -f yaml,toml,xml-jsonml,ini,string,json / -m / -o / --line-padding, --max-stack, value / error / deep-recursion variants (quick: every pair of dimensions fully crossed; thorough: full product): stdout, written files, exit status and first stderr line must agree. The same through a C driver linked against libjsonnet.so (ext_var/ext_code/tla_var/tla_code, jpath, max_stack, string_output, import callback, native callbacks, six evaluate entry points). jrsonnet-deps against the statically reachable set of every import digraph on three files, and against the files an evaluation loads.",
+        note="Trusted: the library-side construction of the configuration (public API only), the C driver (cdriver/driver.c), the reachability model of the import graphs.",
+        technique=MC_TECH + " (exhaustive configuration grids of the real executables, differential against the library API; all small import graphs for the dependency lister)",
+        design="DESIGN.md §4 C15",
+    ),
     "C16": dict(
         category="exploration",
         text="A corpus built to contain an enumeration or a choice (field listings in every declaration order, suggestion lists with equally similar candidates, several independent failures, duplicate keys, top-level calls with several missing/unknown arguments, recursion at the frame limit, all 2-layer inheritance chains over 5 member kinds) evaluated in a fresh thread per hash salt under every salt (32 quick / 256 thorough) x pre-interned pool {0,1,100,10000}, and after every history (<= 2 quick / 3 thorough) over {success, runtime error, frame-limit error, failing assert, object assert failure, large allocation} on the same and on a fresh State: byte-identical result / CompactFormat error text. The real executable is run 3 times per program: identical stdout, stderr, exit code.",
